@@ -24,6 +24,7 @@ type hspec struct {
 	Beh  [6]probe.Beh `json:"beh"`
 }
 type scenario struct {
+	ReadFail bool    `json:"readfail,omitempty"` // targeted: a codec panics with the transport's (possibly wrapped) read error, nothing else closes the channel
 	Tbl      []hspec `json:"tbl"`
 	Async    int     `json:"async"` // queue size, 0 = sync channel
 	Until    bool    `json:"until"` // async channel waits for pending writes (the bootstrap default)
@@ -250,6 +251,9 @@ func check(sc scenario, r *result, meta *hx.Meta) {
 	if r.WriteFailed && (r.Spinning || r.TClosed == 0 || !r.CtxDone) {
 		v("C07", "sender-failure-not-closed", fmt.Sprintf("a transport write failed in the sender but the channel was not closed (transport closes %d, context done %v, still polling %v)", r.TClosed, r.CtxDone, r.Spinning))
 	}
+	if sc.ReadFail && r.CloseErrID != 1 {
+		v("C07", "read-failure-not-closed", fmt.Sprintf("a codec panicked with the transport's non-timeout read error (possibly wrapped) and nothing swallowed it, but the channel was not closed with that error (close error class %d: 1 = the raised error, 3 = the harness' final close)", r.CloseErrID))
+	}
 	if r.Spinning {
 		v("C05", "close-never-completes", "the channel never comes to rest: a goroutine polls for ever (Close waiting for a sender flag that is never released); transport closed "+fmt.Sprint(r.TClosed)+" times")
 		return
@@ -273,6 +277,30 @@ func check(sc scenario, r *result, meta *hx.Meta) {
 }
 
 func genScenario(rng *hx.Rng, meta *hx.Meta, prop string) scenario {
+	if prop == "C07" && rng.Chance(15) {
+		// "a failing transport read that no handler swallows closes the channel with that error": the codec
+		// (handler 1) panics with a non-timeout net.Error, bare or wrapped as the frame codecs do; an exception
+		// handler (handler 2) may consume the exception - the channel must be closed with that error all the same
+		sc := scenario{Reads: 3, ReadFail: true}
+		h1 := hspec{ID: 1, Caps: 1 << uint(probe.KRead)}
+		h2 := hspec{ID: 2, Caps: 1 << uint(probe.KException)}
+		for k := 0; k < 6; k++ {
+			h1.Beh[k] = probe.Beh{B: probe.BPanic, PKind: probe.PNetErr, Timeout: false, Wrap: rng.Bool(), ID: 10 + k}
+			h2.Beh[k] = probe.Beh{B: []int{probe.BStop, probe.BForward}[rng.Intn(2)], ID: 20 + k}
+		}
+		sc.Tbl = []hspec{h1}
+		if rng.Chance(70) {
+			sc.Tbl = append(sc.Tbl, h2)
+		}
+		if rng.Chance(50) {
+			sc.Async = 1 + rng.Intn(3)
+			sc.Until = rng.Bool()
+		}
+		meta.Count("channel", map[bool]string{true: "async", false: "sync"}[sc.Async > 0])
+		meta.Count("closers", "0 (read failure only)")
+		meta.Count("write-failure", "false")
+		return sc
+	}
 	sc := scenario{Reads: 1 + rng.Intn(3)}
 	n := 1 + rng.Intn(4)
 	for i := 1; i <= n; i++ {
